@@ -463,13 +463,20 @@ Balanced(bt, toks) ==
      bt[i].s \in OpenClasses =>
         \A j \in 1..Len(bt) : (bt[j].s = "c" \o FamOf(bt[i].s)) => DepthOf[toks[i]] = DepthOf[toks[j]]
 
+\* Tokens are lexical fragments, not lexemes: a number or set token directly followed by another fragment
+\* may fuse with it on the wire ("0" "7" is the number 7, "1:0" "7" the set 1:07), so a bad number or set
+\* token violates an invariant for certain only when no further digits follow it directly.
+Fusing == NumTokens \cup SetGood \cup SetDyn \cup SetZero \cup SetMal
+Delimited(toks, j) ==
+  toks[j] \in Fusing => (j = Len(toks) \/ toks[j + 1] \notin Fusing)
+
 \* verdict of one base on a line: <<class, why, position of the bad token>>, given the first position j whose token
 \* is not good for its slot
 VerdictAt(b, toks, j) ==
   LET bt == b.toks IN
   IF j = 0
     THEN IF Len(bt) = Len(toks) /\ Balanced(bt, toks) THEN <<"D", "", 0>> ELSE <<"X", "", 0>>
-  ELSE IF BadAt(bt[j], toks[j])
+  ELSE IF BadAt(bt[j], toks[j]) /\ Delimited(toks, j)
           /\ (j >= b.commit \/ (Len(toks) >= b.commit /\ FirstNot(bt, toks, j + 1, b.commit) = 0))
     THEN <<"E", Why(bt[j].s, toks[j]), j>>
   ELSE <<"X", "", 0>>
